@@ -270,9 +270,35 @@ pub fn one(ctx: &mut Ctx, c: &Case) -> bool {
     if pruned.cmr() != red.cmr() {
         ctx.fail("cmr-changed", &line, &format!("original {}, pruned node {}", red.cmr(), pruned.cmr()));
     }
+    // The pruned program may hold an `assertl x #h` and an `assertr #h x` with one identity root
+    // (h = the commitment root of x itself: the two came from cases with equal branches whose types
+    // became equal only through pruning).  The encoder writes one of them for both places, so the
+    // serialised program is a different one.  That is a defect of its own (known finding), told
+    // apart from every other way the serialised program can be refused.
+    let assert_twins = {
+        let mut l: std::collections::HashSet<simplicity::Ihr> = Default::default();
+        let mut r: std::collections::HashSet<simplicity::Ihr> = Default::default();
+        for d in simplicity::dag::DagLike::post_order_iter::<simplicity::dag::InternalSharing>(pruned.as_ref()) {
+            match d.node.inner() {
+                Inner::AssertL(..) => {
+                    l.insert(d.node.ihr());
+                }
+                Inner::AssertR(..) => {
+                    r.insert(d.node.ihr());
+                }
+                _ => {}
+            }
+        }
+        l.intersection(&r).next().is_some()
+    };
+    if assert_twins {
+        ctx.count("reach:pruned-assertl-assertr-one-identity");
+    }
     let mut consequences: Vec<String> = vec![];
     let mut report = |ctx: &mut Ctx, class: &str, detail: String| {
-        if principal {
+        if assert_twins && matches!(class, "pruned-not-canonical" | "c-rejects-pruned" | "c-antidos-rejects") {
+            ctx.fail("pruned-assertl-assertr-one-identity", &line, &format!("[{class}] {detail}"));
+        } else if principal {
             ctx.fail(class, &line, &detail);
         } else {
             ctx.count(&format!("consequence-of-non-principal-types:{class}"));
@@ -409,7 +435,7 @@ pub fn one(ctx: &mut Ctx, c: &Case) -> bool {
         ctx.count("reach:witness-value-shrunk");
         changed = true;
     }
-    let answer = format!("ok {} cmr={cmr_text} principal={} antidos={}", describe(&c.plan, &aligned), if principal { "yes" } else { "no" }, if principal { antidos } else { "n/a" });
+    let answer = format!("ok {} cmr={cmr_text} principal={} antidos={}", describe(&c.plan, &aligned), if principal { "yes" } else { "no" }, if !principal { "n/a" } else if assert_twins { "shared-identity" } else { antidos });
     ctx.op(&line, &answer);
     ctx.case(if changed { Some(&line) } else { None });
     if !principal {
@@ -536,8 +562,16 @@ pub fn replay(ctx: &mut Ctx, case: &str) {
 /// `1`, the serialisation did not decode, libsimplicity refused it, pruning again changed it
 pub const NON_PRINCIPAL_CASE: &str = "prune 10 unit wit wit pair,1,2 word,1,01 comp,4,0 unit comp,6,5 case,0,7 comp,3,8 W:1:00 W:2:1 E:0";
 
+/// found by C12's thorough tier: `case unit unit` at two places, taken left at one and right at the
+/// other; after pruning both have arrow 2 × 1 → 1 and the hidden root is the root of `unit` itself
+const ASSERT_TWINS_CASE: &str = "prune 41 wit iden pair,0,1 unit unit case,3,4 comp,2,5 wit unit take,8 injl,9 unit take,11 unit take,13 injl,14 unit take,16 injr,17 case,15,18 iden unit pair,20,21 comp,22,19 drop,23 pair,12,24 take,25 injr,26 case,10,27 iden unit pair,29,30 comp,31,28 comp,7,32 iden pair,33,34 unit unit case,36,37 comp,35,38 comp,6,39 W:0:1 W:7:0";
+
 pub fn run(ctx: &mut Ctx) {
     if let Some(c) = parse_case(NON_PRINCIPAL_CASE) {
+        one(ctx, &c);
+    }
+    // known finding: two cases with equal branches, pruned to opposite sides, end with one identity root
+    if let Some(c) = parse_case(ASSERT_TWINS_CASE) {
         one(ctx, &c);
     }
     let n = ctx.scale(1000, 20_000);
